@@ -638,8 +638,6 @@ def signature_b(case, impl, models):
     if not (0 < k <= len(ops)):
         return "other:init"
     o = ops[k - 1]
-    if o[0] == "BZ":
-        return "restore-keeps-conflicting-address"
     if len(o) < 2:
         o = o + [""]
     ires, mres = iseg.split(" | ")[0], mseg.split(" | ")[0]
@@ -680,6 +678,11 @@ def _static_outside(case, ops, sub):
 
 
 def classify(case, impl, model):
+    d0 = first_diff(impl, model)
+    if d0 and " | !dup " in d0[2] and d0[2].split(" | !dup ")[0] == d0[1]:
+        return "P", ("implementation and Repaired model agree, and the state they agree on violates the property: "
+                     "two live sessions of one routing domain hold the same address / overlapping prefixes "
+                     "(family:item~item:sessions) %s at op #%d" % (d0[2].split(" | !dup ")[1], d0[0]))
     if case.startswith("B "):
         return classify_b(case, impl, model)
     m = monitor(case, impl)
@@ -707,6 +710,15 @@ def signature(case, impl, models):
     named is the first one without which the model no longer reproduces the trace.  vlib only asks for a signature
     when some checked variant reproduces the trace; no checked variant has the flag of a fixed finding, so a
     regression of a fixed finding never gets here."""
+    d0 = first_diff(impl, models["repaired"])
+    if d0 and " | !dup " in d0[2] and d0[2].split(" | !dup ")[0] == d0[1]:
+        # implementation and Repaired model agree up to here, and the state they agree on violates the property
+        # (monitor in ocaml/C02_run.ml, run on every case): never a known finding
+        return "monitor:" + d0[2].split(" | !dup ")[1].split(":")[0]
+    if impl == models.get(VARIANTS[1]) and impl != models.get(_v(FIXED | {8})):
+        # restore kept an address whose re-reservation conflicted: needs an earlier open finding to produce the two
+        # images with one address, so it is never the FIRST difference; named whenever the trace depends on it
+        return OPEN[8]
     sig = signature_b(case, impl, models) if case.startswith("B ") else signature_a(case, impl, models)
     if sig == "none" or sig in OPEN.values():
         return sig
